@@ -137,8 +137,7 @@ def textMode (st : St) (tmpl : Bool) : Nat :=
 /-- the text of a `script` or `style` element is not rendered at all -/
 def hiddenRaw (rawTag : List Char) : Bool := hashIs rawTag "script" || hashIs rawTag "style"
 
-def collapsed (data : List Char) : List Char :=
-  replaceWsEntities Verif.Gen.C03Tables.entitiesMap Verif.Gen.C03Tables.textRevEntitiesMap data
+def collapsed (data : List Char) : List Char := textCollapsed data
 
 /-- items of an input token in state `st` -/
 def tokIn (st : St) : HTok → List Item
@@ -187,7 +186,6 @@ def tokGuard (o : Opts) (st : St) (h : List Item) (t : HTok) (rest : List HTok) 
      else if textMode st tmpl = 3 then !(collapsed data).isEmpty
      else if textMode st tmpl = 1 then hiddenRaw st.rawTag || !st.omitSpace
      else true)
-  | .endTag n _ => !hashIs n "template" && !(isObject n && omitEndTag o n rest && !isDroppedTag o n)
   | _ => true
 
 def guard (o : Opts) (ext : Ext) (sub : Sub) : St → List Item → List HTok → Bool
@@ -314,7 +312,7 @@ theorem step_dropEnd (o : Opts) (ext : Ext) (sub : Sub) (st : St) (t : HTok) (re
 
 theorem step_end (o : Opts) (ext : Ext) (sub : Sub) (st : St) (n d : List Char) (rest : List HTok)
     (h : st.dropEnd = false) :
-    step o ext sub st (.endTag n d) rest = .ok (endStep o { st with dropText := false } n d rest) := by
+    step o ext sub st (.endTag n d) rest = .ok (endStep o { st with dropText := false, afterPre := 0 } n d rest) := by
   unfold step; simp [h]
 
 theorem step_text_mode (o : Opts) (ext : Ext) (sub : Sub) (st : St) (data : List Char) (tmpl : Bool)
@@ -345,9 +343,9 @@ theorem step_text_mode (o : Opts) (ext : Ext) (sub : Sub) (st : St) (data : List
 theorem step_start (o : Opts) (ext : Ext) (sub : Sub) (st st' : St) (n : List Char) (a : List Attr)
     (rest : List HTok) (out : List Char) (h : st.dropEnd = false)
     (hs : step o ext sub st (.startTag n a) rest = .ok (st', out)) :
-    (emptyRawElement n a rest = true ∧ st' = { st with dropText := false, rawTag := [], dropEnd := true }) ∨
-    (emptyRawElement n a rest = false ∧ isDroppedTag o n = true ∧ st' = startPre { st with dropText := false } n a) ∨
-    (emptyRawElement n a rest = false ∧ ∃ mt, st' = startPost o (startPre { st with dropText := false } n a) n rest mt) := by
+    (emptyRawElement n a rest = true ∧ st' = { st with dropText := false, afterPre := 0, rawTag := [], dropEnd := true }) ∨
+    (emptyRawElement n a rest = false ∧ isDroppedTag o n = true ∧ st' = startPre { st with dropText := false, afterPre := 0 } n a) ∨
+    (emptyRawElement n a rest = false ∧ ∃ mt, st' = startPost o (startPre { st with dropText := false, afterPre := 0 } n a) n rest mt) := by
   unfold step at hs
   simp only [h, Bool.false_eq_true, if_false] at hs
   cases he : emptyRawElement n a rest with
@@ -376,57 +374,56 @@ theorem step_start (o : Opts) (ext : Ext) (sub : Sub) (st st' : St) (n : List Ch
 /-! ## the invariant is preserved -/
 
 theorem inv_end (o : Opts) (st : St) (h : List Item) (n d : List Char) (rest : List HTok)
-    (hinv : Inv st h) (hde : st.dropEnd = false)
-    (hg : (!hashIs n "template" && !(isObject n && omitEndTag o n rest && !isDroppedTag o n)) = true) :
-    Inv (endStep o { st with dropText := false } n d rest).1 (cls n true :: h) ∧
-    (endStep o { st with dropText := false } n d rest).1.dropEnd = false := by
-  simp only [Bool.and_eq_true, Bool.not_eq_true', Bool.and_eq_false_iff, Bool.not_eq_false'] at hg
-  obtain ⟨hnt, hgo⟩ := hg
+    (hinv : Inv st h) (hde : st.dropEnd = false) :
+    Inv (endStep o { st with dropText := false, afterPre := 0 } n d rest).1 (cls n true :: h) ∧
+    (endStep o { st with dropText := false, afterPre := 0 } n d rest).1.dropEnd = false := by
   have hpre := name_facts.2.2.2.2.1
+  -- common end: the boundary is not object-like; if it is not a block boundary the old context is needed
+  have key : ∀ (st3 : St), isObject n = false → (isBlock n = false → st3.omitSpace = true → st3.inPre = false →
+      st.omitSpace = true ∧ st.inPre = false) →
+      (st3.omitSpace = true → st3.inPre = false → leftOK (cls n true :: h) = true) := by
+    intro st3 hno hk h1 h2
+    apply leftOK_cls n true h hno
+    intro hb
+    have := hk hb h1 h2
+    exact hinv this.1 this.2
   unfold endStep
-  simp only [hnt, Bool.false_eq_true, if_false]
+  simp only
   by_cases hd : isDroppedTag o n = true
   · simp only [hd, if_true]
     refine ⟨?_, by split <;> simp [hde]⟩
-    intro h1 h2
-    apply leftOK_cls n true h (dropped_not_obj o n hd)
-    intro hb
+    apply key _ (dropped_not_obj o n hd)
+    intro hb h1 h2
     by_cases hp : hashIs n "pre" = true
     · rw [hashIs_eq hp, hpre] at hb; exact absurd hb (by decide)
     · simp only [hp, Bool.false_eq_true, if_false] at h1 h2
-      exact hinv h1 h2
+      exact ⟨h1, h2⟩
   · simp only [hd, Bool.false_eq_true, if_false]
     by_cases ho : omitEndTag o n rest = true
     · simp only [ho, if_true]
-      have hno : isObject n = false := by
-        rcases hgo with (hgo | hgo) | hgo
-        · exact hgo
-        · rw [ho] at hgo; exact absurd hgo (by decide)
-        · exact absurd hgo hd
       refine ⟨?_, by split <;> simp [hde]⟩
-      intro h1 h2
-      apply leftOK_cls n true h hno
-      intro hb
-      by_cases hp : hashIs n "pre" = true
-      · rw [hashIs_eq hp, hpre] at hb; exact absurd hb (by decide)
-      · simp only [hp, Bool.false_eq_true, if_false] at h1 h2
-        exact hinv h1 h2
-    · simp only [ho, Bool.false_eq_true, if_false]
-      refine ⟨?_, by split <;> simp [hde]⟩
-      intro h1 h2
-      simp only [updOmitSpace] at h1
-      by_cases hk : (o.keepWhitespace || isObject n) = true
-      · simp [hk] at h1
-      · simp only [hk, Bool.false_eq_true, if_false] at h1
-        have hno : isObject n = false := by
-          simp only [Bool.or_eq_true, not_or, Bool.not_eq_true] at hk; exact hk.2
-        apply leftOK_cls n true h hno
-        intro hb
-        simp only [hb, Bool.false_eq_true, if_false] at h1
+      cases hob : isObject n with
+      | true => intro h1; simp at h1
+      | false =>
+        apply key _ hob
+        intro hb h1 h2
         by_cases hp : hashIs n "pre" = true
         · rw [hashIs_eq hp, hpre] at hb; exact absurd hb (by decide)
         · simp only [hp, Bool.false_eq_true, if_false] at h1 h2
-          exact hinv h1 h2
+          exact ⟨h1, h2⟩
+    · simp only [ho, Bool.false_eq_true, if_false]
+      refine ⟨?_, by split <;> simp [hde]⟩
+      by_cases hk : (o.keepWhitespace || isObject n) = true
+      · intro h1; simp [updOmitSpace, hk] at h1
+      · have hno : isObject n = false := by
+          simp only [Bool.or_eq_true, not_or, Bool.not_eq_true] at hk; exact hk.2
+        apply key _ hno
+        intro hb h1 h2
+        simp only [updOmitSpace, hk, Bool.false_eq_true, if_false, hb] at h1
+        by_cases hp : hashIs n "pre" = true
+        · rw [hashIs_eq hp, hpre] at hb; exact absurd hb (by decide)
+        · simp only [hp, Bool.false_eq_true, if_false] at h1 h2
+          exact ⟨h1, h2⟩
 
 theorem startPre_proj (st0 : St) (n : List Char) (a : List Attr) :
     (startPre st0 n a).omitSpace = st0.omitSpace ∧ (startPre st0 n a).dropEnd = st0.dropEnd ∧
@@ -469,10 +466,10 @@ theorem inv_start (o : Opts) (ext : Ext) (sub : Sub) (st st' : St) (h : List Ite
     apply leftOK_cls n false h (emptyRaw_not_obj n a rest he)
     intro _
     exact hinv h1 h2
-  · have p := startPre_proj { st with dropText := false } n a
+  · have p := startPre_proj { st with dropText := false, afterPre := 0 } n a
     exact key _ p.1 p.2.2 (dropped_not_obj o n hd)
-  · have p := startPre_proj { st with dropText := false } n a
-    have q := startPost_proj o (startPre { st with dropText := false } n a) n rest mt
+  · have p := startPre_proj { st with dropText := false, afterPre := 0 } n a
+    have q := startPost_proj o (startPre { st with dropText := false, afterPre := 0 } n a) n rest mt
     intro h1 h2
     have hu := q.2.2 h1
     rw [p.1] at hu
@@ -511,14 +508,26 @@ theorem replWsEnt_allws (em : EntMap) (rev : RevMap) : ∀ (sx : List Char), sx.
     simp only [replWsEnt, h.1, if_true]
     exact ih h.2
 
+theorem hasGlue_allws : ∀ (d : List Char) (b : Bool), d.all isWhitespace = true → hasGlueFrom b d = false := by
+  intro d
+  induction d with
+  | nil => intro b _; rfl
+  | cons c r ih =>
+    intro b h
+    simp only [List.all_cons, Bool.and_eq_true] at h
+    have hc : c ≠ '&' := by intro e; subst e; exact absurd h.1 (by decide)
+    simp only [hasGlueFrom, hc, if_false]
+    exact ih _ h.2
+
 theorem collapsed_allws (d : List Char) (h : isAllWhitespace d = true) :
     textItems (collapsed d) = [] ∨ textItems (collapsed d) = [.ws] := by
   cases d with
   | nil => left; rfl
   | cons c sx =>
     right
+    have hg : hasReferenceGlue (c :: sx) = false := hasGlue_allws _ false h
     simp only [isAllWhitespace, List.all_cons, Bool.and_eq_true] at h
-    simp only [collapsed, replaceWsEntities, replWsEnt, h.1, if_true, Bool.false_eq_true, if_false]
+    simp only [collapsed, textCollapsed, hg, Bool.false_eq_true, if_false, replaceWsEntities, replWsEnt, h.1, if_true]
     rw [replWsEnt_allws _ _ sx h.2]
     split <;> rfl
 
@@ -569,17 +578,19 @@ theorem trimRight_rightOK (o : Opts) (ext : Ext) (sub : Sub) : ∀ (rest : List 
         split at ht
         · simp at ht
         · split at ht
-          · next hb => simp only [tokIn, cls_block n true hb]; rfl
-          · next hb =>
-            rw [step_end o ext sub st n d r hd] at hs
-            simp only [Except.ok.injEq] at hs
-            have p := endStep_proj o { st with dropText := false } n d r
-            rw [hs] at p
-            have hrec := ih st' (p.2.2 hp) p.1 (p.2.1.trans hd) ht
-            simp only [tokIn, cls]
-            split
-            · rfl
-            · simp only [List.singleton_append, rightOK]; exact hrec
+          · simp at ht
+          · split at ht
+            · next hb => simp only [tokIn, cls_block n true hb]; rfl
+            · next hb =>
+              rw [step_end o ext sub st n d r hd] at hs
+              simp only [Except.ok.injEq] at hs
+              have p := endStep_proj o { st with dropText := false, afterPre := 0 } n d r
+              rw [hs] at p
+              have hrec := ih st' (p.2.2 hp) p.1 (p.2.1.trans hd) ht
+              simp only [tokIn, cls]
+              split
+              · rfl
+              · simp only [hb, Bool.false_eq_true, if_false, List.singleton_append, rightOK]; exact hrec
       | comment d tx =>
         simp only [trimRight] at ht
         unfold step at hs
@@ -790,7 +801,7 @@ theorem ws_refine_core (o : Opts) (ext : Ext) (sub : Sub) : ∀ (toks : List HTo
         | endTag n d =>
           rw [step_end o ext sub st n d rest hde'] at hs
           simp only [Except.ok.injEq] at hs
-          have hi := (inv_end o st h n d rest hinv hde' htg).1
+          have hi := (inv_end o st h n d rest hinv hde').1
           rw [hs] at hi
           exact same [cls n true] rfl rfl hi
         | startTag n a =>
